@@ -22,6 +22,13 @@ TraceEnd == /\ IsEvent("End")
             /\ IF (Rec[l].rc = 134) = panicked THEN TRUE ELSE PrintT("REJECT " \o ToJson([l |-> l, tag |-> "end", expected |-> panicked, observed |-> Rec[l].rc]))
             /\ IF panicked \/ SameBag(exp, obs) THEN TRUE
                ELSE PrintT("REJECT " \o ToJson([l |-> l, tag |-> "errors", expected |-> SelectSeq(exp, LAMBDA e : Count(e, exp) # Count(e, obs)), observed |-> SelectSeq(obs, LAMBDA e : Count(e, exp) # Count(e, obs))]))
+            \* the ALPIDE readout-flag statistics of the run = the flags of the chip trailers of all closed frames of all FEE ids
+            /\ (("flags" \in DOMAIN Rec[l]) =>
+                   LET RECURSIVE Tot(_)
+                       Tot(S) == IF S = {} THEN NoFlags ELSE LET k == CHOOSE k \in S : TRUE IN AddFlags(st[k].fr.flags, Tot(S \ {k}))
+                       want == Tot(DOMAIN st)
+                   IN IF panicked \/ want = Rec[l].flags THEN TRUE
+                      ELSE PrintT("REJECT " \o ToJson([l |-> l, tag |-> "flags", expected |-> want, observed |-> Rec[l].flags])))
             /\ UNCHANGED << st, panicked, exp, obs, period >>
 Next == TraceCfg \/ TracePkt \/ TraceEnd
 Spec == Init /\ [][Next]_tvars
